@@ -588,6 +588,36 @@ def check_c19(run):
         nontrivial_keys=("split_leaves_2", "split_leaves_3", "split_leaves_4", "split_leaves_5", "split_leaves_6", "split_leaves_7", "split_leaves_8", "split_leaves_9"),
         partial_note="thread interleavings, rayon's contract that every producer is folded exactly once, and data-race freedom are runtime facts outside the model; what is proved is that every split tree partitions the buckets and that drain conserves elements, for all trees and all stop positions")
 
+def c16_signature_offenders(run):
+    """The public method signatures (generated from the source) that break one of the three borrow
+    rules of Model/Borrow.v, evaluated inside Coq; each with its source text from Gen/GenTypes.v."""
+    ok, log = H.coq_make(["theories/Model/Borrow.vo"])
+    if not ok:
+        return None
+    vf = os.path.join(run.wdir, "offenders.v")
+    open(vf, "w").write("From Coq Require Import String List.\nFrom HB Require Import Gen.GenTypes Model.Borrow.\n"
+                        "Eval vm_compute in (map (fun g => (s_owner g, s_name g, negb (rule_U g), negb (rule_B g), negb (rule_L g))) "
+                        "(filter (fun g => negb (sig_ok g)) gen_sigs)).\n")
+    rc, out = H.sh(["coqc", "-noglob", "-Q", "theories", "HB", vf], cwd=H.COQ, timeout=600)
+    if rc != 0:
+        return None
+    offs = re.findall(r'\("([^"]+)",\s*"([^"]+)",\s*(true|false),\s*(true|false),\s*(true|false)\)', out.replace("\n", " "))
+    src = {}
+    try:
+        gt = open(os.path.join(H.COQ, "theories", "Gen", "GenTypes.v")).read()
+        for m in re.finditer(r'\(\* (pub [^\n]*?) \*\)\nDefinition sig_\d+ : fsig := mkSig "([^"]+)" "([^"]+)"', gt):
+            src[(m.group(2), m.group(3))] = m.group(1)
+    except OSError:
+        pass
+    res = []
+    for o, n, u, b, l in offs:
+        why = []
+        if u == "true": why.append("(U) its return type can write or move out through a borrow (`&mut`, or a handle type holding the unique borrow of the collection) but the receiver is not `&mut self` / `self`")
+        if b == "true": why.append("(B) its return type borrows but there is no receiver and no borrowed argument to borrow from")
+        if l == "true": why.append("(L) a named lifetime of its return type is not bound by the impl block or by an input of the fn")
+        res.append((o, n, src.get((o, n), "?"), "; ".join(why)))
+    return res
+
 def check_c16(run):
     pid = "C16"
     cs = H.coq_stage(run, pid)
@@ -597,7 +627,17 @@ def check_c16(run):
     st = {k: int(v) for k, v in re.findall(r"(\w+)=(\d+)", (re.findall(r"^STATS .*$", out, re.M) or [""])[-1])}
     prop = [(k, t) for k, t in fails if k == "property"]
     tie = [(k, t) for k, t in fails if k != "property"]
-    if prop:
+    sig_offs = c16_signature_offenders(run) if not cs["ok"] else []
+    if sig_offs:
+        # the borrow clause: the offending declaration itself is the failing input
+        for i, (o, n, src_t, why) in enumerate(sig_offs[:3]):
+            p = run.write_replay(f"replay_sig_{i}.txt",
+                f"# property C16 violated (borrow clause): the public method `{o}::{n}` is declared as\n#     {src_t}\n# {why}.\n"
+                f"# Safe code can therefore hold this result together with another borrow of the same collection\n"
+                f"# (Model/Borrow.v: sig_ok = false for this generated signature; Properties/C16b.v no longer checks).\n"
+                f"# replay: ./hv check C16   (the signature is regenerated from /repo/src by tools/sigx.py)\n")
+            run.violation(p)
+    elif prop:
         for i, (k, t) in enumerate(prop[:3]):
             m = re.search(r"file=(\S+)", t)
             body = ""
